@@ -5,6 +5,7 @@ mod entropy;
 mod ev;
 mod exec;
 mod findings;
+mod fixpoint;
 mod gen;
 mod lines;
 mod minimise;
@@ -14,7 +15,9 @@ mod oracle;
 mod props;
 mod rng;
 mod run;
+mod schedule;
 mod snap;
+mod stability;
 mod structural;
 mod world;
 mod xlsxfault;
